@@ -7,10 +7,11 @@
       switched off without a duration  -> not in force
       paused until d                   -> in force from d on
 
-    for every history of switches, clock readings (DNS requests, status
+    for EVERY history of switches, clock readings (DNS requests, status
     reads) and wake-ups of enableProtectionAfterPause with non-decreasing
-    instants, provided no switch lands between the start of that goroutine and
-    the moment it gets the server lock ([calm]; that window is refuted below:
+    instants, in any interleaving (the goroutine looks at the state again when
+    it holds the lock, /repo c1dbdb6; the goroutine as it was before, which
+    overrode a switch that landed in its start-up window, is refuted below:
     [late_wake_overrides_switch_refuted]).  The seeded handler that keeps the
     deadline on a re-enable and dns_config's former flag-only setter are
     refuted with their witnesses.  The result is the [protection] input of the
@@ -35,7 +36,7 @@ Definition switch_of (o : pop) : option switch :=
       then Some (if 0 <? dur then SwPause (now + dur) else if en then SwOn else SwOff)
       else None
   | PConf en => Some (if en then SwOn else SwOff)
-  | PRead _ | PWake => None
+  | PRead _ | PWake _ => None
   end.
 
 Definition last_switch (sw0 : switch) (h : list pop) : switch :=
@@ -45,10 +46,11 @@ Definition last_switch (sw0 : switch) (h : list pop) : switch :=
 Definition expected (sw : switch) (t : Z) : bool :=
   match sw with SwOn => true | SwOff => false | SwPause d => d <=? t end.
 
-(** The clock does not run backwards: every instant of the history is at
-    least the one before it (and the start [T]). *)
+(** The clock does not run backwards: every instant of the history (also the
+    one the goroutine reads when it holds the lock) is at least the one before
+    it (and the start [T]). *)
 Definition instant_of (o : pop) : option Z :=
-  match o with PSet now _ _ | PRead now => Some now | PConf _ | PWake => None end.
+  match o with PSet now _ _ | PRead now | PWake now => Some now | PConf _ => None end.
 
 Fixpoint ordered (T : Z) (h : list pop) : Prop :=
   match h with
@@ -65,95 +67,72 @@ Fixpoint last_instant (T : Z) (h : list pop) : Z :=
   | o :: r => last_instant (match instant_of o with Some t => t | None => T end) r
   end.
 
-(** No switch arrives while enableProtectionAfterPause has been started and
-    has not yet run. *)
-Fixpoint calm (s : prot) (h : list pop) : Prop :=
-  match h with
-  | [] => True
-  | o :: r => (switch_of o <> None -> pr_waking s = false) /\ calm (step_now s o) r
-  end.
-
-(** The goroutine gets to run right after the read that started it: the
-    histories a single administrator and any number of clients produce unless
-    a switch hits the start-up window of the goroutine. *)
-Fixpoint prompt (h : list pop) : Prop :=
-  match h with
-  | [] => True
-  | PRead _ :: r => match r with PWake :: r' => prompt r' | _ => False end
-  | _ :: r => prompt r
-  end.
-
 (** * The invariant *)
 
-(** State [s] stands for the switch [sw], all instants so far being <= T. *)
+(** State [s] stands for the switch [sw], all instants so far being <= T
+    (whether the goroutine is under way does not matter). *)
 Definition agrees (sw : switch) (T : Z) (s : prot) : Prop :=
   match sw with
-  | SwOn => s = mkProt true None false
-  | SwOff => s = mkProt false None false
+  | SwOn => pr_flag s = true /\ pr_until s = None
+  | SwOff => pr_flag s = false /\ pr_until s = None
   | SwPause d =>
-      (pr_flag s = false /\ pr_until s = Some d /\ (pr_waking s = true -> d <= T)) \/
-      (s = mkProt true None false /\ d <= T)
+      (pr_flag s = false /\ pr_until s = Some d) \/
+      (pr_flag s = true /\ pr_until s = None /\ d <= T)
   end.
 
 Lemma agrees_mono sw T T' s : T <= T' -> agrees sw T s -> agrees sw T' s.
 Proof.
   intros L. destruct sw; cbn; auto.
-  intros [(F & U & W) | (E & D)]; [left | right]; repeat split; auto; try lia.
-  intros Hw. specialize (W Hw). lia.
+  intros [(F & U) | (F & U & D)]; [left | right]; repeat split; auto; lia.
 Qed.
 
 Lemma agrees_in_force sw T s t : T <= t -> agrees sw T s -> in_force t s = expected sw t.
 Proof.
-  intros L. destruct sw; cbn [agrees expected].
-  - intros ->. reflexivity.
-  - intros ->. reflexivity.
-  - intros [(F & U & W) | (-> & D)].
-    + unfold in_force, read. rewrite U. destruct (Z.ltb_spec t deadline), (Z.leb_spec deadline t); cbn; auto; lia.
-    + cbn. symmetry. apply Z.leb_le. lia.
+  intros L. destruct sw; cbn [agrees expected]; unfold in_force, read.
+  - intros (F & ->). exact F.
+  - intros (F & ->). exact F.
+  - intros [(F & ->) | (F & -> & D)].
+    + destruct (Z.ltb_spec t deadline), (Z.leb_spec deadline t); cbn; auto; lia.
+    + cbn. rewrite F. symmetry. apply Z.leb_le. lia.
 Qed.
 
-Lemma step_switch s o sw' :
-  switch_of o = Some sw' -> pr_waking s = false ->
-  forall T, agrees sw' T (step_now s o).
+Lemma step_switch s o sw' : switch_of o = Some sw' -> forall T, agrees sw' T (step_now s o).
 Proof.
-  destruct o as [now en dur | en | now |]; cbn [switch_of]; try discriminate.
+  destruct o as [now en dur | en | now | now]; cbn [switch_of]; try discriminate.
   - unfold step_now, prot_step. destruct (set_accepted en dur); [|discriminate].
-    intros E W T. destruct s as [f u w]. cbn in W. subst w.
-    unfold set_as_written. destruct (0 <? dur).
-    + injection E as <-. cbn. left. repeat split. discriminate.
-    + destruct en; injection E as <-; reflexivity.
-  - intros E W T. destruct s as [f u w]. cbn in W. subst w.
-    destruct en; injection E as <-; reflexivity.
+    intros E T. unfold set_as_written. destruct (0 <? dur).
+    + injection E as <-. left. split; reflexivity.
+    + destruct en; injection E as <-; split; reflexivity.
+  - intros E T. destruct en; injection E as <-; split; reflexivity.
 Qed.
 
 Lemma step_no_switch sw T s o :
   switch_of o = None -> agrees sw T s ->
   match instant_of o with Some t => T <= t -> agrees sw t (step_now s o) | None => agrees sw T (step_now s o) end.
 Proof.
-  destruct o as [now en dur | en | now |]; cbn [switch_of instant_of]; try discriminate.
+  destruct o as [now en dur | en | now | now]; cbn [switch_of instant_of]; try discriminate.
   - (* a refused request *)
     unfold step_now, prot_step. destruct (set_accepted en dur); [discriminate|].
     intros _ A L. now apply (agrees_mono _ T).
-  - (* a read *)
-    intros _ A L. unfold step_now, prot_step.
-    destruct sw; cbn [agrees] in *.
-    + subst s. reflexivity.
-    + subst s. reflexivity.
-    + destruct A as [(F & U & W) | (-> & D)].
-      * left. unfold read. rewrite U. destruct (Z.ltb_spec now deadline); cbn.
-        -- repeat split; auto. intros Hw. specialize (W Hw). lia.
-        -- repeat split; auto.
-      * right. cbn. split; [reflexivity | lia].
-  - (* the goroutine *)
-    intros _ A. unfold step_now, prot_step, wake.
-    destruct sw; cbn [agrees] in *.
-    + subst s. reflexivity.
-    + subst s. reflexivity.
-    + destruct A as [(F & U & W) | (-> & D)].
-      * destruct (pr_waking s) eqn:Ew.
-        -- right. split; [reflexivity | now apply W].
-        -- left. repeat split; auto. intros Hw. cbn in Hw. congruence.
-      * right. cbn. split; [reflexivity | exact D].
+  - (* a read: at most the goroutine is started *)
+    intros _ A L. apply (agrees_mono _ T _ _ L) in A. unfold step_now, prot_step, read.
+    destruct (pr_until s) as [d|] eqn:U; [|exact A].
+    destruct (now <? d); [exact A|]. cbn [snd].
+    destruct sw; cbn [agrees pr_flag pr_until] in *; rewrite ?U in *; exact A.
+  - (* the goroutine holds the lock *)
+    intros _ A L. unfold step_now, prot_step, wake_as_written.
+    destruct (pr_waking s); [|now apply (agrees_mono _ T)].
+    destruct (pr_until s) as [d|] eqn:U.
+    + destruct (Z.ltb_spec now d).
+      * apply (agrees_mono _ T _ _ L) in A.
+        destruct sw; cbn [agrees pr_flag pr_until] in *; rewrite ?U in *; exact A.
+      * destruct sw; cbn [agrees pr_flag pr_until] in *; rewrite ?U in *.
+        -- destruct A; discriminate.
+        -- destruct A; discriminate.
+        -- destruct A as [(F & E) | (F & E & D)]; [|discriminate].
+           injection E as ->. right. repeat split. exact H.
+    + apply (agrees_mono _ T _ _ L) in A.
+      destruct sw; cbn [agrees pr_flag pr_until] in *; rewrite ?U in *; exact A.
 Qed.
 
 Lemma run_now_cons s o h : run_now s (o :: h) = run_now (step_now s o) h.
@@ -164,15 +143,13 @@ Lemma last_switch_cons sw o h :
 Proof. reflexivity. Qed.
 
 Lemma history_agrees h : forall sw T s,
-  agrees sw T s -> ordered T h -> calm s h ->
+  agrees sw T s -> ordered T h ->
   agrees (last_switch sw h) (last_instant T h) (run_now s h).
 Proof.
-  induction h as [|o h IH]; intros sw T s A O C; [exact A|].
-  rewrite run_now_cons, last_switch_cons. cbn [last_instant].
-  destruct C as [Cw Cr]. cbn [ordered] in O.
+  induction h as [|o h IH]; intros sw T s A O; [exact A|].
+  rewrite run_now_cons, last_switch_cons. cbn [last_instant]. cbn [ordered] in O.
   destruct (switch_of o) as [sw'|] eqn:E.
-  - assert (W : pr_waking s = false) by (apply Cw; discriminate).
-    destruct (instant_of o) as [t|]; [destruct O as [_ O]|]; apply IH; auto; now apply step_switch.
+  - destruct (instant_of o) as [t|]; [destruct O as [_ O]|]; apply IH; auto; now apply step_switch.
   - pose proof (step_no_switch sw T s o E A) as S.
     destruct (instant_of o) as [t|]; [destruct O as [L O]|]; apply IH; auto.
 Qed.
@@ -187,65 +164,16 @@ Qed.
 
 (** * The theorem *)
 
-(** For every history whose instants do not decrease and in which no switch
-    hits the start-up window of the goroutine, from any state that stands for
-    a switch: at every instant from the end of the history on, protection is
-    in force iff the last switch says so. *)
+(** For every history whose instants do not decrease (switches through either
+    endpoint, refused requests, reads, wake-ups of the goroutine at any point
+    after the read that started it: every interleaving), from any state that
+    stands for a switch: at every instant from the end of the history on,
+    protection is in force iff the last switch says so. *)
 Theorem protection_follows_last_switch sw0 T0 s0 h t :
-  agrees sw0 T0 s0 -> ordered T0 h -> calm s0 h -> last_instant T0 h <= t ->
+  agrees sw0 T0 s0 -> ordered T0 h -> last_instant T0 h <= t ->
   in_force t (run_now s0 h) = expected (last_switch sw0 h) t.
 Proof.
-  intros A O C L. eapply agrees_in_force; [exact L|]. now apply history_agrees.
-Qed.
-
-(** Prompt histories are calm. *)
-Lemma waking_after_step s o : pr_waking s = false -> (forall n, o <> PRead n) -> pr_waking (step_now s o) = false.
-Proof.
-  destruct s as [f u w]. cbn. intros -> N. destruct o as [now en dur | en | now |]; cbn.
-  - unfold prot_step. destruct (set_accepted en dur); [|reflexivity].
-    unfold set_as_written. destruct (0 <? dur); reflexivity.
-  - reflexivity.
-  - exfalso. now apply (N now).
-  - reflexivity.
-Qed.
-
-Lemma wake_after_read s n : pr_waking (step_now (step_now s (PRead n)) PWake) = false.
-Proof.
-  destruct s as [f u w]. unfold step_now, prot_step, read, wake. cbn.
-  destruct u as [d|]; [destruct (n <? d)|]; cbn; destruct w; reflexivity.
-Qed.
-
-Lemma prompt_calm_gen : forall n h s, (length h <= n)%nat -> pr_waking s = false -> prompt h -> calm s h.
-Proof.
-  induction n as [|n IH]; intros h s Ln W P.
-  - destruct h; [exact I | cbn in Ln; lia].
-  - destruct h as [|o h]; [exact I|]. cbn in Ln.
-    destruct o as [now en dur | en | now |].
-    + split; [intros _; exact W|]. apply IH; [lia| |exact P]. apply waking_after_step; [exact W|discriminate].
-    + split; [intros _; exact W|]. apply IH; [lia| |exact P]. apply waking_after_step; [exact W|discriminate].
-    + cbn in P. destruct h as [|o' h]; [contradiction|]. destruct o'; try contradiction.
-      split; [intros _; exact W|]. split; [cbn; intros N; now contradiction N|].
-      apply IH; [cbn in Ln; lia| |exact P]. apply wake_after_read.
-    + split; [intros _; exact W|]. apply IH; [lia| |exact P]. apply waking_after_step; [exact W|discriminate].
-Qed.
-
-Lemma prompt_calm h s : pr_waking s = false -> prompt h -> calm s h.
-Proof. apply (prompt_calm_gen (length h)). lia. Qed.
-
-Lemma agrees_start sw T s : agrees sw T s -> (pr_waking s = true -> exists d, sw = SwPause d).
-Proof.
-  destruct sw; cbn.
-  - intros ->. discriminate.
-  - intros ->. discriminate.
-  - intros _ _. now exists deadline.
-Qed.
-
-(** The same with the premise on the history alone. *)
-Theorem protection_follows_last_switch_prompt sw0 T0 s0 h t :
-  agrees sw0 T0 s0 -> pr_waking s0 = false -> ordered T0 h -> prompt h -> last_instant T0 h <= t ->
-  in_force t (run_now s0 h) = expected (last_switch sw0 h) t.
-Proof.
-  intros A W O P L. apply (protection_follows_last_switch sw0 T0); auto. now apply prompt_calm.
+  intros A O L. eapply agrees_in_force; [exact L|]. now apply history_agrees.
 Qed.
 
 (** A server started from its configuration file stands for a switch. *)
@@ -259,41 +187,43 @@ Definition switch_of_config (flag : bool) (until : option Z) : switch :=
 Lemma start_agrees until T : agrees (switch_of_config false until) T (prot_init false until)
                              /\ agrees (switch_of_config true None) T (prot_init true None).
 Proof.
-  split; [|reflexivity]. destruct until as [d|]; cbn; [|reflexivity].
-  left. repeat split. discriminate.
+  split; [|split; reflexivity]. destruct until as [d|]; cbn; [|split; reflexivity].
+  left. split; reflexivity.
 Qed.
 
 (** ** Corollaries read off the last switch *)
 
+Lemma last_switch_after sw0 h o rest sw :
+  switch_of o = Some sw -> Forall (fun x => switch_of x = None) rest ->
+  last_switch sw0 (h ++ o :: rest) = sw.
+Proof.
+  intros E R. unfold last_switch. rewrite fold_left_app. cbn [fold_left]. rewrite E.
+  set (f := fun sw x => match switch_of x with Some s => s | None => sw end).
+  revert sw E. induction R as [|x l Hx R IH]; intros sw E; [reflexivity|].
+  cbn [fold_left]. unfold f at 2. rewrite Hx. now apply IH.
+Qed.
+
 (** An accepted {"enabled": true} (either endpoint) puts protection in force
     at once and for good, whatever pause preceded it, until the next switch. *)
 Theorem reenable_cancels_pause sw0 T0 s0 h o rest t :
-  agrees sw0 T0 s0 -> ordered T0 (h ++ o :: rest) -> calm s0 (h ++ o :: rest) ->
+  agrees sw0 T0 s0 -> ordered T0 (h ++ o :: rest) ->
   switch_of o = Some SwOn -> Forall (fun x => switch_of x = None) rest ->
   last_instant T0 (h ++ o :: rest) <= t ->
   in_force t (run_now s0 (h ++ o :: rest)) = true.
 Proof.
-  intros A O C E R L. rewrite (protection_follows_last_switch sw0 T0); auto.
-  unfold last_switch. rewrite fold_left_app. cbn [fold_left]. rewrite E.
-  set (f := fun sw x => match switch_of x with Some s => s | None => sw end).
-  assert (K : forall l sw, Forall (fun x => switch_of x = None) l -> fold_left f l sw = sw).
-  { induction l as [|x l IHl]; intros sw F; [reflexivity|]. inversion F; subst. cbn. unfold f at 2. rewrite H1. now apply IHl. }
-  rewrite K by exact R. reflexivity.
+  intros A O E R L. rewrite (protection_follows_last_switch sw0 T0); auto.
+  now rewrite (last_switch_after sw0 h o rest SwOn).
 Qed.
 
 (** A pause holds until its deadline and ends there by itself. *)
 Theorem pause_in_force_from_deadline sw0 T0 s0 h o rest d t :
-  agrees sw0 T0 s0 -> ordered T0 (h ++ o :: rest) -> calm s0 (h ++ o :: rest) ->
+  agrees sw0 T0 s0 -> ordered T0 (h ++ o :: rest) ->
   switch_of o = Some (SwPause d) -> Forall (fun x => switch_of x = None) rest ->
   last_instant T0 (h ++ o :: rest) <= t ->
   in_force t (run_now s0 (h ++ o :: rest)) = (d <=? t).
 Proof.
-  intros A O C E R L. rewrite (protection_follows_last_switch sw0 T0); auto.
-  unfold last_switch. rewrite fold_left_app. cbn [fold_left]. rewrite E.
-  set (f := fun sw x => match switch_of x with Some s => s | None => sw end).
-  assert (K : forall l sw, Forall (fun x => switch_of x = None) l -> fold_left f l sw = sw).
-  { induction l as [|x l IHl]; intros sw F; [reflexivity|]. inversion F; subst. cbn. unfold f at 2. rewrite H1. now apply IHl. }
-  rewrite K by exact R. reflexivity.
+  intros A O E R L. rewrite (protection_follows_last_switch sw0 T0); auto.
+  now rewrite (last_switch_after sw0 h o rest (SwPause d)).
 Qed.
 
 (** A refused request ("enabled": true with a duration) changes nothing. *)
@@ -326,7 +256,7 @@ Section Compose.
   Definition cfg_after (c : cfg) (s0 : prot) (h : list pop) (t : Z) : cfg := cfg_at c (run_now s0 h) t.
 
   Theorem protection_after_history c sw0 T0 s0 h t :
-    agrees sw0 T0 s0 -> ordered T0 h -> calm s0 h -> last_instant T0 h <= t ->
+    agrees sw0 T0 s0 -> ordered T0 h -> last_instant T0 h <= t ->
     protection_on (cfg_after c s0 h t) = expected (last_switch sw0 h) t.
   Proof. intros. unfold cfg_after. rewrite cfg_at_protection. now apply (protection_follows_last_switch sw0 T0). Qed.
 
@@ -335,7 +265,7 @@ Section Compose.
       premises of C01_blocked_is_local hold in the configuration the request
       sees ==> answered locally with the synthetic answer, nothing upstream. *)
   Theorem blocked_is_local_after_history c sw0 T0 s0 h t up q :
-    agrees sw0 T0 s0 -> ordered T0 h -> calm s0 h -> last_instant T0 h <= t ->
+    agrees sw0 T0 s0 -> ordered T0 h -> last_instant T0 h <= t ->
     expected (last_switch sw0 h) t = true ->
     (protection_on (cfg_after c s0 h t) = true -> blocked_by_spec (cfg_after c s0 h t) q) ->
     let c' := cfg_after c s0 h t in
@@ -345,21 +275,21 @@ Section Compose.
     o_resp o = Some (synthetic c' (q_name q) (q_qtype q) (ips_from_rules (o_result o))) /\
     o_qname o = q_name q.
   Proof.
-    intros A O C L E B. cbv zeta. apply blocked_is_local. apply B.
+    intros A O L E B. cbv zeta. apply blocked_is_local. apply B.
     rewrite (protection_after_history c sw0 T0); auto.
   Qed.
 
   (** ... and when the last switch says "not in force" (switched off, or a
       pause still running) nothing is blocked. *)
   Theorem nothing_blocked_while_off c sw0 T0 s0 h t q res :
-    agrees sw0 T0 s0 -> ordered T0 h -> calm s0 h -> last_instant T0 h <= t ->
+    agrees sw0 T0 s0 -> ordered T0 h -> last_instant T0 h <= t ->
     expected (last_switch sw0 h) t = false ->
     verdict (cfg_after c s0 h t) q = Some res ->
     r_filtered res = false /\
     (r_reason res = NotFilteredNotFound \/ r_reason res = RewrittenLegacy \/
      r_reason res = RewrittenAutoHosts \/ r_reason res = RewrittenRule).
   Proof.
-    intros A O C L E V. eapply protection_off_blocks_nothing; [|exact V].
+    intros A O L E V. eapply protection_off_blocks_nothing; [|exact V].
     rewrite (protection_after_history c sw0 T0); auto.
   Qed.
 
@@ -367,20 +297,20 @@ Section Compose.
       passed, the last switch says "in force" and the client's filtering is
       on. *)
   Theorem response_filtering_after_history c sw0 T0 s0 h t q :
-    agrees sw0 T0 s0 -> ordered T0 h -> calm s0 h -> last_instant T0 h <= t ->
+    agrees sw0 T0 s0 -> ordered T0 h -> last_instant T0 h <= t ->
     let c' := cfg_after c s0 h t in
     response_filtering_applies c' q <->
     (passes_request_stage allow_eng block_eng sb_oracle par_oracle ss_oracle rw_sort c' q no_result /\
      expected (last_switch sw0 h) t = true /\ st_filtering (request_settings c' q) = true).
   Proof.
-    intros A O C L. cbv zeta. unfold Proofs.Pipeline.response_filtering_applies.
+    intros A O L. cbv zeta. unfold Proofs.Pipeline.response_filtering_applies.
     rewrite (protection_after_history c sw0 T0); auto. tauto.
   Qed.
 
   (** The first offending record replaces the answer after an accepted
       re-enable, whatever pause preceded it. *)
   Theorem offending_record_blocks_after_history c sw0 T0 s0 h t up q r pre rr0 post res :
-    agrees sw0 T0 s0 -> ordered T0 h -> calm s0 h -> last_instant T0 h <= t ->
+    agrees sw0 T0 s0 -> ordered T0 h -> last_instant T0 h <= t ->
     expected (last_switch sw0 h) t = true ->
     let c' := cfg_after c s0 h t in
     passes_request_stage allow_eng block_eng sb_oracle par_oracle ss_oracle rw_sort c' q no_result ->
@@ -394,7 +324,7 @@ Section Compose.
     o_result o = res /\ r_filtered res = true /\ r_reason res = FilteredBlockList /\
     o_orig_kept o = true /\ o_calls o = [the_call q] /\ o_qname o = q_name q.
   Proof.
-    intros A O C L E. cbv zeta. intros P F U An Cl Ch.
+    intros A O L E. cbv zeta. intros P F U An Cl Ch.
     eapply offending_record_blocks; eauto.
     split; [exact P|]. split; [|exact F]. rewrite (protection_after_history c sw0 T0); auto.
   Qed.
@@ -409,22 +339,22 @@ Definition hour : Z := 3600000.
 Definition seed_history : list pop := [PSet 0 false hour; PSet 1000 true 0].
 
 Theorem reenable_keeps_deadline_refuted :
-  exists h t, prompt h /\ ordered 0 h /\ last_instant 0 h <= t /\ last_switch SwOn h = SwOn /\
-    in_force t (prot_run set_keeps_deadline conf_as_written (prot_init true None) h) = false /\
+  exists h t, ordered 0 h /\ last_instant 0 h <= t /\ last_switch SwOn h = SwOn /\
+    in_force t (prot_run set_keeps_deadline conf_as_written wake_as_written (prot_init true None) h) = false /\
     in_force t (run_now (prot_init true None) h) = true.
 Proof. exists seed_history, 2000. vm_compute. repeat split; discriminate. Qed.
 
 (** dns_config before 8ae46d5, switched on during a pause: stays off ... *)
 Definition conf_on_history : list pop := [PSet 0 false hour; PConf true].
 (** ... switched off during a pause: comes back on at the deadline. *)
-Definition conf_off_history : list pop := [PSet 0 false hour; PConf false; PRead (hour + 1); PWake].
+Definition conf_off_history : list pop := [PSet 0 false hour; PConf false; PRead (hour + 1); PWake (hour + 1)].
 
 Theorem conf_flag_only_refuted :
-  (exists h t, prompt h /\ ordered 0 h /\ last_instant 0 h <= t /\ last_switch SwOn h = SwOn /\
-     in_force t (prot_run set_as_written conf_flag_only (prot_init true None) h) = false /\
+  (exists h t, ordered 0 h /\ last_instant 0 h <= t /\ last_switch SwOn h = SwOn /\
+     in_force t (prot_run set_as_written conf_flag_only wake_as_written (prot_init true None) h) = false /\
      in_force t (run_now (prot_init true None) h) = true) /\
-  (exists h t, prompt h /\ ordered 0 h /\ last_instant 0 h <= t /\ last_switch SwOn h = SwOff /\
-     in_force t (prot_run set_as_written conf_flag_only (prot_init true None) h) = true /\
+  (exists h t, ordered 0 h /\ last_instant 0 h <= t /\ last_switch SwOn h = SwOff /\
+     in_force t (prot_run set_as_written conf_flag_only wake_as_written (prot_init true None) h) = true /\
      in_force t (run_now (prot_init true None) h) = false).
 Proof.
   split.
@@ -432,36 +362,43 @@ Proof.
   - exists conf_off_history, (hour + 2). vm_compute. repeat split; discriminate.
 Qed.
 
-(** The start-up window of enableProtectionAfterPause, in the code as it is:
-    a pause runs out, a request starts the goroutine, the administrator
-    switches protection off before the goroutine has the lock, the goroutine
-    switches it on. *)
-Definition late_wake_history : list pop := [PSet 0 false hour; PRead (hour + 1); PSet (hour + 2) false 0; PWake].
+(** The goroutine as it was before c1dbdb6 (it stored "enabled, no deadline"
+    whatever the pair held by the time it got the lock): a pause runs out, a
+    request starts the goroutine, the administrator switches protection off
+    (or starts a new pause) before the goroutine has the lock, the goroutine
+    switches protection on. *)
+Definition late_wake_history : list pop :=
+  [PSet 0 false hour; PRead (hour + 1); PSet (hour + 2) false 0; PWake (hour + 2)].
+Definition late_wake_history_pause : list pop :=
+  [PSet 0 false hour; PRead (hour + 1); PSet (hour + 2) false hour; PWake (hour + 2)].
 
-Definition follows_last_switch_in_any_interleaving_statement : Prop :=
-  forall h t, ordered 0 h -> last_instant 0 h <= t ->
-  in_force t (run_now (prot_init true None) h) = expected (last_switch SwOn h) t.
-
-Theorem late_wake_overrides_switch_refuted : ~ follows_last_switch_in_any_interleaving_statement.
+Theorem late_wake_overrides_switch_refuted :
+  (exists h t, ordered 0 h /\ last_instant 0 h <= t /\ last_switch SwOn h = SwOff /\
+     in_force t (prot_run set_as_written conf_as_written wake_unconditional (prot_init true None) h) = true /\
+     in_force t (run_now (prot_init true None) h) = false) /\
+  (exists h t d, ordered 0 h /\ last_instant 0 h <= t /\ last_switch SwOn h = SwPause d /\ t < d /\
+     in_force t (prot_run set_as_written conf_as_written wake_unconditional (prot_init true None) h) = true /\
+     in_force t (run_now (prot_init true None) h) = false).
 Proof.
-  intros H. specialize (H late_wake_history (hour + 3)). vm_compute in H.
-  assert (K : true = false) by (apply H; [repeat split; discriminate | discriminate]). discriminate.
+  split.
+  - exists late_wake_history, (hour + 3). vm_compute. repeat split; discriminate.
+  - exists late_wake_history_pause, (hour + 3), (2 * hour + 2). vm_compute. repeat split; discriminate.
 Qed.
 
 (** * Non-vacuity *)
 
 Example premises_satisfiable :
   agrees SwOn 0 (prot_init true None) /\
-  ordered 0 [PSet 0 false hour; PRead 1000; PWake; PConf true; PRead (2 * hour); PWake] /\
-  prompt [PSet 0 false hour; PRead 1000; PWake; PConf true; PRead (2 * hour); PWake] /\
-  last_switch SwOn [PSet 0 false hour; PRead 1000; PWake; PConf true; PRead (2 * hour); PWake] = SwOn /\
-  last_switch SwOn [PSet 0 false hour; PRead 1000; PWake] = SwPause hour /\
+  ordered 0 [PSet 0 false hour; PRead 1000; PConf true; PRead (2 * hour); PSet (2 * hour) false hour; PWake (2 * hour)] /\
+  last_switch SwOn [PSet 0 false hour; PRead 1000; PWake 1000; PConf true; PRead (2 * hour); PWake (2 * hour)] = SwOn /\
+  last_switch SwOn [PSet 0 false hour; PRead 1000; PWake 1000] = SwPause hour /\
   in_force 1000 (run_now (prot_init true None) [PSet 0 false hour]) = false /\
-  in_force (hour + 1) (run_now (prot_init true None) [PSet 0 false hour]) = true.
+  in_force (hour + 1) (run_now (prot_init true None) [PSet 0 false hour]) = true /\
+  in_force (hour + 3) (run_now (prot_init true None) late_wake_history) = false.
 Proof. vm_compute. repeat split; discriminate. Qed.
 
 Example blocked_premises_after_history m :
-  let h := [PSet 0 false hour; PRead 1000; PWake; PSet 2000 true 0] in
+  let h := [PSet 0 false hour; PRead 1000; PWake 1000; PSet 2000 true 0] in
   expected (last_switch SwOn h) 3000 = true /\
   blocked_by_spec (match_request []) (match_request ex_block_rules) Rewrites.isort
     (cfg_after (ex_cfg m) (prot_init true None) h 3000) ex_query.
